@@ -780,3 +780,6 @@ def tag(line, impl, model):
 
 def exhaustive(tier):
     return True   # the small-alphabet scopes listed in cases() are complete up to the tier's length
+
+
+KNOWN_MUST_MATCH_MODEL = True   # inside a known finding's region the observation must still equal the model's (which reproduces the listed defect); see lib/vf/run.py
